@@ -380,9 +380,13 @@ def execute(case):
         payload = chars = text
     ref = reference(chars, case)
     probes.reset()
+    probes.set_budget(len(payload))
     log = ReadLog(len(payload))
     src = make_source(kind, payload, case["src"], log)
-    out, parser = _parse_with(src, case, case["chunk"], kwargs, log)
+    try:
+        out, parser = _parse_with(src, case, case["chunk"], kwargs, log)
+    finally:
+        probes.set_budget(None)
 
     bounds = classify_faults(case, payload, chars, log, stats)
     if len(chars) > 10240 and case["chunk"] == 10240:
